@@ -268,7 +268,18 @@ class ScriptedServer(object):
                              'reset_before': True, 't': w.loop._now}
                     c.transactions.append(c.cur)
             elif verb == b'RCPT':
-                act = self.action('rcpt')
+                by_addr = (self.tx_scripts.get(self.tag) or {}).get(
+                    'rcpt_by_addr')
+                if by_addr is not None:
+                    a0 = arg[arg.find(b'<') + 1:arg.rfind(b'>')].decode(
+                        'utf-8', 'replace')
+                    lst = by_addr.get(a0) or [{}]
+                    key = (self.tag, 'rcpt', a0)
+                    n = self.tx_counters.get(key, 0)
+                    self.tx_counters[key] = n + 1
+                    act = lst[n] if n < len(lst) else lst[-1]
+                else:
+                    act = self.action('rcpt')
                 code = self._do('rcpt', act)
                 if code is None:
                     return
